@@ -217,13 +217,20 @@ def scale_free_comparison_rule(repo: Repo, prop: str, rule_id: str, functions, a
         for st in walk_shallow(fn.node):
             if isinstance(st, ast.Assign) and len(st.targets) == 1 and isinstance(st.targets[0], ast.Name):
                 defs[st.targets[0].id] = st.value
+        penv: Dict[str, object] = {}
+        for a_ in fn.node.args.args:
+            ann = ast.unparse(a_.annotation) if a_.annotation is not None else ""
+            if any(t in ann for t in ("PointType", "VectorType", "PointListType")) and a_.arg not in defs:
+                penv[a_.arg] = 1
         k = 0
         for node in ast.walk(fn.node):
             if not (isinstance(node, ast.Compare) and len(node.ops) == 1 and isinstance(node.ops[0], (ast.Lt, ast.LtE, ast.Gt, ast.GtE))):
                 continue
+            if any(isinstance(x, ast.Constant) and x.value == 0 for x in (node.left, node.comparators[0])):
+                continue  # a sign test: the same at every size
             try:
-                a = homogeneity(node.left, {}, defs)
-                b = homogeneity(node.comparators[0], {}, defs)
+                a = homogeneity(node.left, penv, defs)
+                b = homogeneity(node.comparators[0], penv, defs)
             except Inhomogeneous as err:
                 r.bad(fn, f"{fn.qualname}: {err}: the verdict changes with the size of the model", node, key=f"compare#{k}")
                 k += 1
